@@ -177,3 +177,30 @@ def walk_stmts(stmts):
         if isinstance(st, ast.Match):
             for c in st.cases:
                 yield from walk_stmts(c.body)
+
+
+def straightline_def(func: Func, name: str, before_stmt) -> Optional[ast.AST]:
+    """Value of the last top-level ``name = expr`` before ``before_stmt`` in func's body.
+
+    Only used for small straight-line helpers; returns None when the name is
+    (re)bound inside a compound statement before ``before_stmt``.
+    """
+    last = None
+    for st in func.body:
+        if st is before_stmt:
+            break
+        if isinstance(st, ast.Assign):
+            for t in st.targets:
+                if isinstance(t, ast.Name) and t.id == name:
+                    last = st.value
+                elif isinstance(t, (ast.Tuple, ast.List)):
+                    for i, e in enumerate(t.elts):
+                        if isinstance(e, ast.Name) and e.id == name:
+                            last = ("unpack", st.value, i)
+        elif isinstance(st, (ast.If, ast.For, ast.While, ast.Try, ast.With)):
+            for sub in walk_stmts([st]):
+                if isinstance(sub, (ast.Assign, ast.AugAssign, ast.AnnAssign)):
+                    tg = sub.targets if isinstance(sub, ast.Assign) else [sub.target]
+                    if any(_binds(t, name) for t in tg):
+                        last = None
+    return last
